@@ -52,6 +52,7 @@ type Contract struct {
 	Points   []*PointSpec
 	Uses     []string
 	Inline   bool
+	AssumeFrame bool
 	Pure     bool // no effect on any modelled state
 	NoPanic  bool
 	File     string
@@ -414,6 +415,9 @@ func (sp *Specs) parseText(file string, lines []string, nums []int) error {
 			}
 		case "implements":
 			cur.Implements = rest
+		case "assumeframe":
+			// the frame (nothing outside `modifies` changes) of this function is assumed, not proved
+			cur.AssumeFrame = true
 		case "inline":
 			cur.Inline = true
 		case "noeffect":
